@@ -972,4 +972,107 @@ theorem holds_compare_of_rank (t1 t2 : Trajs) (m : Nat)
     · have hb0 : (m == 0) = false := by simpa using h0
       simp only [if_neg h0, hb0]; exact hz _
 
+/-! ### converse of the refinement statement, strict positivity -/
+
+theorem sum_map_eq_length_imp {α : Type} (l : List α) (f : α → Rat) (h : ∀ x ∈ l, f x ≤ 1)
+    (hs : (l.map f).sum = (l.length : Nat)) : ∀ x ∈ l, f x = 1 := by
+  induction l with
+  | nil => intro x hx; simp at hx
+  | cons y ys ih =>
+    have h1 := h y (by simp)
+    have h2 := sum_map_le_length ys f (fun x hx => h x (by simp [hx]))
+    simp only [List.map_cons, List.sum_cons, List.length_cons] at hs
+    push_cast at hs
+    have hy : f y = 1 := by linarith
+    have hys : (ys.map f).sum = (ys.length : Nat) := by linarith
+    intro x hx
+    rcases List.mem_cons.mp hx with rfl | hx
+    · exact hy
+    · exact ih (fun x hx => h x (by simp [hx])) hys x hx
+
+theorem countP_eq_imp {α : Type} (l : List α) (p q : α → Bool) (hpq : ∀ x, p x = true → q x = true)
+    (h : l.countP p = l.countP q) : ∀ x ∈ l, q x = true → p x = true := by
+  induction l with
+  | nil => intro x hx; simp at hx
+  | cons y ys ih =>
+    have hle : ys.countP p ≤ ys.countP q := List.countP_mono_left (fun x _ => hpq x)
+    simp only [List.countP_cons] at h
+    intro x hx hqx
+    by_cases hpy : p y = true
+    · have hqy := hpq y hpy
+      rw [if_pos hpy, if_pos hqy] at h
+      rcases List.mem_cons.mp hx with rfl | hx
+      · exact hpy
+      · exact ih (by omega) x hx hqx
+    · by_cases hqy : q y = true
+      · rw [if_neg hpy, if_pos hqy] at h; omega
+      · rw [if_neg hpy, if_neg hqy] at h
+        rcases List.mem_cons.mp hx with rfl | hx
+        · exact absurd hqx hqy
+        · exact ih (by omega) x hx hqx
+
+theorem count_le_count_snd (z : List (Int × Int)) (p : Int × Int) : z.count p ≤ (z.map Prod.snd).count p.2 :=
+  List.count_le_count_map
+
+theorem dirZ_eq_one_imp (z : List (Int × Int)) (hz : z ≠ []) (h : dirZ z = 1) :
+    ∀ p ∈ z, ∀ q ∈ z, p.2 = q.2 → p.1 = q.1 := by
+  unfold dirZ at h
+  have hN : ((z.length : Nat) : Rat) ≠ 0 := by
+    have := List.length_pos_iff.mpr hz
+    exact_mod_cast (Nat.pos_iff_ne_zero.mp this)
+  have hsum := (div_eq_one_iff_eq hN).mp h
+  have hterm := sum_map_eq_length_imp z _ (fun p _ => (natDiv_mem_unit (count_le_count_snd z p)).2) hsum
+  intro p hp q hq hpq
+  have h1 := hterm p hp
+  have hpos : 0 < z.count p := List.count_pos_iff.mpr hp
+  have hc : z.count p = (z.map Prod.snd).count p.2 := by
+    have hle := count_le_count_snd z p
+    have hd : (((z.map Prod.snd).count p.2 : Nat) : Rat) ≠ 0 := by
+      have : 0 < (z.map Prod.snd).count p.2 := by omega
+      exact_mod_cast (Nat.pos_iff_ne_zero.mp this)
+    have := (div_eq_one_iff_eq hd).mp h1
+    exact_mod_cast this
+  rw [List.count_eq_countP, List.count_eq_countP, List.countP_map] at hc
+  have := countP_eq_imp z (· == p) ((· == p.2) ∘ Prod.snd)
+    (fun x hx => by simp only [beq_iff_eq] at hx; simp [hx]) hc q hq (by simp [hpq])
+  simp only [beq_iff_eq] at this
+  rw [this]
+
+theorem sum_map_pos {α : Type} (l : List α) (f : α → Rat) (hl : l ≠ []) (h : ∀ x ∈ l, 0 < f x) :
+    0 < (l.map f).sum := by
+  cases l with
+  | nil => exact absurd rfl hl
+  | cons y ys =>
+    simp only [List.map_cons, List.sum_cons]
+    have h1 := h y (by simp)
+    have h2 := sum_map_nonneg ys f (fun x hx => le_of_lt (h x (by simp [hx])))
+    linarith
+
+theorem zip_ne_nil {l1 l2 : List Int} (hlen : l1.length = l2.length) (hne : l1 ≠ []) : l1.zip l2 ≠ [] := by
+  intro hz
+  have : (l1.zip l2).length = 0 := by rw [hz]; rfl
+  rw [List.length_zip, ← hlen, Nat.min_self] at this
+  exact hne (List.length_eq_zero_iff.mp this)
+
+theorem directedFrames_pos (l1 l2 : List Int) (hlen : l1.length = l2.length) (hne : l1 ≠ []) :
+    0 < directedFrames l1 l2 := by
+  unfold directedFrames
+  apply div_pos
+  · apply sum_map_pos _ _ (zip_ne_nil hlen hne)
+    rintro ⟨a, b⟩ hp
+    have h1 : 0 < nij l1 l2 a b := List.count_pos_iff.mpr hp
+    have h2 := nij_le_colTot l1 l2 a b
+    show 0 < ((nij l1 l2 a b : Nat) : Rat) / (colTot l2 b : Nat)
+    apply div_pos
+    · exact_mod_cast h1
+    · have : 0 < colTot l2 b := by omega
+      exact_mod_cast this
+  · have := List.length_pos_iff.mpr hne
+    exact_mod_cast this
+
+theorem directedFrames_eq_one_iff (l1 l2 : List Int) (hlen : l1.length = l2.length) (hne : l1 ≠ []) :
+    directedFrames l1 l2 = 1 ↔ ∀ p ∈ l1.zip l2, ∀ q ∈ l1.zip l2, p.2 = q.2 → p.1 = q.1 := by
+  rw [directedFrames_eq_dirZ _ _ hlen]
+  exact ⟨dirZ_eq_one_imp _ (zip_ne_nil hlen hne), dirZ_refines _ (zip_ne_nil hlen hne)⟩
+
 end MsmVerif.Compare
